@@ -135,36 +135,51 @@ pub fn contract_violation<D: Doc>(root: &Node<D>) -> Option<String> {
     // no field the cursor does not report
     let tsl = n.lang().get_ts_language();
     for f in 1..=(tsl.field_count() as u16) {
-      if !fields.contains(&Some(f)) && n.child_by_field_id(f).is_some() {
+      if !fields.contains(&Some(f)) && n.get_ts_node().child_by_field_id(f).is_some() {
         return Some(format!("child_by_field_id({f}) finds a child the cursor does not label at {:?}", n.range()));
       }
     }
     let r = n.range();
     let mut last_end = r.start;
     for (i, c) in kids.iter().enumerate() {
-      match c.parent() {
-        Some(p) if p.node_id() == n.node_id() => {}
+      // (everything below asks TREE-SITTER, never ast-grep's own navigation built on it: a tree is
+      // outside the contract only when the parser library misbehaves; `Node::parent` / `next` /
+      // `prev` / `next_all` / `prev_all` are code under test and are judged by C19 and the rule units)
+      let tsc = c.get_ts_node();
+      match tsc.parent() {
+        Some(p) if p.id() == n.node_id() => {}
         _ => return Some(format!("parent(child) != node at {:?}", c.range())),
       }
-      let nx = c.next().map(|x| x.node_id());
+      let nx = tsc.next_sibling().map(|x| x.id());
       let want_nx = kids.get(i + 1).map(|x| x.node_id());
       if nx != want_nx {
         return Some(format!("next() is not the following child at {:?}", c.range()));
       }
-      let pv = c.prev().map(|x| x.node_id());
+      let pv = tsc.prev_sibling().map(|x| x.id());
       let want_pv = if i == 0 { None } else { Some(kids[i - 1].node_id()) };
       if pv != want_pv {
         return Some(format!("prev() is not the preceding child at {:?}", c.range()));
       }
-      // the repeated cursor walks behind next_all()/prev_all() stay on the sibling list
-      let na: Vec<usize> = c.next_all().map(|x| x.node_id()).collect();
+      // the repeated cursor walks behind next_all()/prev_all() stay on the sibling list: a cursor of
+      // the parent placed with goto_first_child_for_byte(start of the child), then stepped to the end
+      let raw_walk = |fwd: bool| -> Vec<usize> {
+        let mut cur = n.get_ts_node().walk();
+        cur.goto_first_child_for_byte(tsc.start_byte());
+        let mut out = vec![];
+        while if fwd { cur.goto_next_sibling() } else { cur.goto_previous_sibling() } {
+          out.push(cur.node().id());
+          if out.len() > kids.len() + 2 {
+            break;
+          }
+        }
+        out
+      };
       let want_na: Vec<usize> = kids[i + 1..].iter().map(|x| x.node_id()).collect();
-      if na != want_na {
+      if raw_walk(true) != want_na {
         return Some(format!("next_all() is not the list of following children at {:?}", c.range()));
       }
-      let pa: Vec<usize> = c.prev_all().map(|x| x.node_id()).collect();
       let want_pa: Vec<usize> = kids[..i].iter().rev().map(|x| x.node_id()).collect();
-      if pa != want_pa {
+      if raw_walk(false) != want_pa {
         return Some(format!("prev_all() is not the reversed list of preceding children at {:?}", c.range()));
       }
       let cr = c.range();
@@ -174,8 +189,8 @@ pub fn contract_violation<D: Doc>(root: &Node<D>) -> Option<String> {
       last_end = cr.end;
       if let Some(f) = fields[i] {
         let first = fields.iter().position(|x| *x == Some(f)).unwrap();
-        match n.child_by_field_id(f) {
-          Some(x) if x.node_id() == kids[first].node_id() => {}
+        match n.get_ts_node().child_by_field_id(f) {
+          Some(x) if x.id() == kids[first].node_id() => {}
           _ => return Some(format!("child_by_field_id({f}) is not the first child under that field at {:?}", r)),
         }
       }
